@@ -20,7 +20,8 @@ import subprocess
 import tempfile
 
 from lib import cmd, outcome, is_error, import_impl, cnf_sat, assignments, Sym
-from fam_c03 import FAMILIES
+from fam_c03 import FAMILIES, PTN_DENSE
+from fam_streams import fast_batch
 
 META = dict(
     technique='Coq theorems (unsatisfiability by induction over DAG order / order theory / levels / Tseitin double counting; '
@@ -127,6 +128,8 @@ def agrees(got, mv, fcname):
     nv, items = got[1]
     if nv != mv[1]:
         return (False, 'numvar')
+    if items == mv[2]:
+        return (True, '')
     if fcname == 'CNF':
         if canon(items) != canon(mv[2]):
             return (False, 'clauses')
@@ -211,6 +214,136 @@ def _search_semantic(ctx, fam, p, got_cnf):
     return (False, None, {}, None)
 
 
+def compare(ctx, fam, p, al, reps, classes, order_notes):
+    """one parameter choice: the implementation under the formula classes against the model replies `reps` of the
+    variants `al` (documented variant first)"""
+    stream = fam['name'] + ('-malformed' if p.get('malformed') else '-boundary' if p.get('boundary') else
+                            '-' + p['stream'] if p.get('stream') else '-large' if p.get('large') else '')
+    ctx.tally('family', fam['name'])
+    if p.get('stream'):
+        ctx.tally('stream ' + p['stream'], fam['name'])
+        if 'raw' in p:
+            for k, v in sorted(p['raw'].items()):
+                ctx.tally('shapes: flag passed as', repr(v))
+        if 'ops' in p or 'bops' in p:
+            ops = p.get('ops') or p.get('bops')
+            ctx.tally('history: generator calls on the same object', sum(1 for o in ops if o[0] == 'gen'))
+            for o in ops:
+                if o[0] != 'gen':
+                    ctx.tally('history: ops', o[0])
+    for key in ('n', 'N', 'v', 'a'):
+        if key in p:
+            ctx.tally(fam['name'] + ' size', p[key] if p[key] <= 40 else '%d-%d' % (p[key] // 50 * 50, p[key] // 50 * 50 + 49))
+            break
+    if any(is_error(r) for r in reps):
+        ctx.count(stream, (fam['name'], repr(p)), True)
+        ctx.violation('correspondence', 'model error', dict(input=dict(family=fam['name'], params=short(p)), model=str(reps)[:300]),
+                      False, site='model-error', cls=fam['name'])
+        return
+
+    def documented(reps):
+        mv0 = model_view(reps[0], 'CNF')       # alternatives list the documented variant first
+        return mv0[2] if mv0[0] == 'ok' else None
+    got_cnf = None
+    for fcname, fc in classes:
+        if p.get('only') and fcname not in p['only']:
+            continue
+        got = outcome(lambda: impl_view(fam['build'](p, fc), fcname))
+        if fcname == 'CNF':
+            got_cnf = got
+        nontriv = got[0] == 'ok' and (got[1][0] > 0 or len(got[1][1]) > 0)
+        ctx.count(stream, (fam['name'], fcname, repr(p)), nontriv,
+                  sample=dict(family=fam['name'], params=short(p), formula_class=fcname))
+        if got[0] == 'ok':
+            ctx.tally('variables', got[1][0] if got[1][0] < 50 else '>=50')
+            if p.get('stream'):
+                w = max([len(c) for c in got[1][1]] or [0]) if fcname == 'CNF' else max([len(c) - 2 for c in got[1][1]] or [0])
+                ctx.tally('streams: widest constraint', w if w <= 14 else '15-16' if w <= 16 else '17-64' if w <= 64 else
+                          '65-128' if w <= 128 else '129-256' if w <= 256 else '>=257')
+            doc = fam['numvar_doc'](p)
+            if doc is not None and doc != got[1][0] and not p.get('malformed'):
+                ctx.violation('counterexample', '%s has %d variables, documented %d' % (fam['impl'], got[1][0], doc),
+                              dict(input=dict(family=fam['name'], params=short(p), formula_class=fcname)), True,
+                              site=fam['impl'], cls='numvar-differs')
+        inp = dict(family=fam['name'], params=short(p), formula_class=fcname,
+                   library_call=fam['impl'], model_request=str(al[0]['request'])[:300])
+        agreed = None
+        for alt, rep in zip(al, reps):
+            ok, detail = agrees(got, model_view(rep, fcname), fcname)
+            if ok:
+                agreed = (alt, detail)
+                break
+        if agreed is not None and agreed[0]['finding'] is None:
+            if agreed[1] == 'order':
+                order_notes[fam['name']] = order_notes.get(fam['name'], 0) + 1
+            continue
+        ctx.disagreements_checked += 1
+        if agreed is not None:
+            # the defect of this model variant is in the code: produce the failing input
+            f = agreed[0]['finding']
+            if got[0] == 'exc':
+                ctx.violation('counterexample', '%s raises %s on a valid argument' % (fam['impl'], got[1]),
+                              dict(input=inp, implementation=list(got[1:])), True, site=f['site'], cls=f['cls'])
+            else:
+                found, what, extra, _ = search_failing_input(ctx, fam, p, got_cnf, documented(reps))
+                rp = dict(input=inp, agrees_with='model variant %s (coq/Fam_%s.v), not with the documented one' %
+                          (agreed[0]['label'], fam['name']))
+                rp.update(extra)
+                ctx.violation('counterexample' if found else 'correspondence',
+                              what or '%s differs from its documented clauses' % fam['impl'], rp, found,
+                              site=f['site'], cls=f['cls'])
+            continue
+        # ---- disagreement with every model variant ----
+        mv = model_view(reps[0], fcname)
+        detail = agrees(got, mv, fcname)[1]
+        if got[0] == 'exc' and not p.get('malformed'):
+            ctx.violation('counterexample', '%s raised %s: %s' % (fam['impl'], got[1], got[2]),
+                          dict(input=inp, implementation=list(got[1:]), model=str(mv)[:300]), True,
+                          site=fam['impl'], cls='raises-' + got[1])
+            continue
+        found, what, extra, cls = search_failing_input(ctx, fam, p, got_cnf, documented(reps))
+        rp = dict(input=inp, difference=detail,
+                  implementation=str(got)[:600], model=str(mv)[:600],
+                  correspondence='coq/Fam_*.v (%s) <-> cnfgen %s; theorems of coq/Prop_C03.v no longer cover the code' % (fam['name'], fam['impl']))
+        rp.update(extra)
+        if found:
+            ctx.violation('counterexample', what, rp, True, site=fam['impl'], cls=cls)
+        else:
+            ctx.violation('correspondence', 'formula differs from the model (%s)' % detail, rp, False,
+                          site=fam['impl'], cls='differs-' + detail)
+
+
+def ptn_dense(ctx, fam, classes, order_notes):
+    """PythagoreanTriples at EVERY N up to PTN_DENSE.  The extracted model takes ~1e-5 * N^2 s per call (Z.sqrt on
+    binary numbers), so the expected clause list of N is read off ONE model call at the top size: ptn_cnf N is the
+    sub-list of ptn_cnf TOP of the clauses that mention no number above N (a pair with y > N has z > N; the order of
+    the pairs is lexicographic in both).  That reading is itself compared with the model's own answer on every
+    N <= 120 and on 255..258, 300 in every run."""
+    top = PTN_DENSE[ctx.tier]
+    check_ns = list(range(0, 121)) + [255, 256, 257, 258, 300]
+    reps = fast_batch([fam['request'](dict(N=top))] + [fam['request'](dict(N=N)) for N in check_ns])
+    if any(is_error(r) or len(r) != 3 for r in reps):
+        ctx.violation('correspondence', 'model error', dict(input=dict(family='ptn', N=top), model=str(reps)[:300]), False,
+                      site='model-error', cls='ptn')
+        return
+    full = reps[0][1]
+    tops = [max(abs(l) for l in c) for c in full]
+
+    def expected(N):
+        return [c for c, m in zip(full, tops) if m <= N]
+    for N, r in zip(check_ns, reps[1:]):
+        ctx.count('ptn-dense-lemma', ('ptn', N), N >= 5)
+        if r[0] != N or r[1] != expected(N):
+            ctx.violation('correspondence', 'harness: ptn_cnf N is not the sub-list of ptn_cnf %d below N (the dense stream would be unsound)' % top,
+                          dict(input=dict(family='ptn', N=N)), False, site='harness', cls='ptn-prefix-lemma')
+            return
+    cnf_only = [c for c in classes if c[0] == 'CNF']
+    for N in range(0, top + 1):
+        p = dict(N=N, stream='dense', large=True, only=['CNF'])
+        al = [dict(label='sub-list below N of the model at N=%d' % top, request=fam['request'](dict(N=top)), finding=None)]
+        compare(ctx, fam, p, al, [[N, expected(N), []]], cnf_only, order_notes)
+
+
 def run(ctx):
     import_impl()
     from cnfgen.formula.cnf import CNF
@@ -223,95 +356,28 @@ def run(ctx):
         'PythagoreanTriples int(sqrt(.)) and BinaryMappingVariables int(ceil(log(m,2))) are modelled by exact integer functions '
         '(DESIGN section 8: equal below 2^52 / 2^29)',
         'canonical clause sets (sorted set of sorted clauses) are compared for class CNF (SemFacts.cnf_sat_set_ext); the OPB '
-        'constraint list is compared in order']
+        'constraint list is compared in order',
+        'stream ptn-dense: the expected formula of every N <= %d is the sub-list, below N, of ONE model answer at that top size '
+        '(harness-level fact about ptn_cnf, re-checked against the model itself on N <= 120, 255..258, 300 in every run)' % PTN_DENSE[ctx.tier],
+        'streams thresholds/shapes/history (notes/LARGE_STREAMS.md): large instances marked only=[CNF] are compared under class CNF only; '
+        'a flag passed as a truthy/falsy non-bool is compared with the model on bool(flag); a graph with a history is compared with the '
+        'model on the edge set the harness computed by itself (fam_streams.simulate)']
     for fam in FAMILIES:
-        ps = fam['params'](ctx.rng, ctx.tier)
+        # the corpus of large / rare / history cases first, then the exhaustive small and random ones
+        ps = (fam['streams'](ctx.rng, ctx.tier) if fam.get('streams') else []) + fam['params'](ctx.rng, ctx.tier)
         if 'alternatives' in fam:
             alts = [fam['alternatives'](p) for p in ps]
         else:
             alts = [[dict(label='model', request=fam['request'](p), finding=None)] for p in ps]
         flat = [alt['request'] for al in alts for alt in al]
-        replies = ctx.model.batch(flat)
+        replies = fast_batch(flat, timeout=1500)     # lib.Model.batch with a faster reader for replies of several MB
         pos = 0
         for p, al in zip(ps, alts):
             reps = replies[pos:pos + len(al)]
             pos += len(al)
-            stream = fam['name'] + ('-malformed' if p.get('malformed') else '-boundary' if p.get('boundary') else
-                                    '-large' if p.get('large') else '')
-            ctx.tally('family', fam['name'])
-            for key in ('n', 'N', 'v', 'a'):
-                if key in p:
-                    ctx.tally(fam['name'] + ' size', p[key])
-                    break
-            if any(is_error(r) for r in reps):
-                ctx.count(stream, (fam['name'], repr(p)), True)
-                ctx.violation('correspondence', 'model error', dict(input=dict(family=fam['name'], params=short(p)), model=str(reps)[:300]),
-                              False, site='model-error', cls=fam['name'])
-                continue
-            def documented(reps):
-                mv0 = model_view(reps[0], 'CNF')       # alternatives list the documented variant first
-                return mv0[2] if mv0[0] == 'ok' else None
-            got_cnf = None
-            for fcname, fc in classes:
-                got = outcome(lambda: impl_view(fam['build'](p, fc), fcname))
-                if fcname == 'CNF':
-                    got_cnf = got
-                nontriv = got[0] == 'ok' and (got[1][0] > 0 or len(got[1][1]) > 0)
-                ctx.count(stream, (fam['name'], fcname, repr(p)), nontriv,
-                          sample=dict(family=fam['name'], params=short(p), formula_class=fcname))
-                if got[0] == 'ok':
-                    ctx.tally('variables', got[1][0] if got[1][0] < 50 else '>=50')
-                    doc = fam['numvar_doc'](p)
-                    if doc is not None and doc != got[1][0] and not p.get('malformed'):
-                        ctx.violation('counterexample', '%s has %d variables, documented %d' % (fam['impl'], got[1][0], doc),
-                                      dict(input=dict(family=fam['name'], params=short(p), formula_class=fcname)), True,
-                                      site=fam['impl'], cls='numvar-differs')
-                inp = dict(family=fam['name'], params=short(p), formula_class=fcname,
-                           library_call=fam['impl'], model_request=str(fam['request'](p))[:300])
-                agreed = None
-                for alt, rep in zip(al, reps):
-                    ok, detail = agrees(got, model_view(rep, fcname), fcname)
-                    if ok:
-                        agreed = (alt, detail)
-                        break
-                if agreed is not None and agreed[0]['finding'] is None:
-                    if agreed[1] == 'order':
-                        order_notes[fam['name']] = order_notes.get(fam['name'], 0) + 1
-                    continue
-                ctx.disagreements_checked += 1
-                if agreed is not None:
-                    # the defect of this model variant is in the code: produce the failing input
-                    f = agreed[0]['finding']
-                    if got[0] == 'exc':
-                        ctx.violation('counterexample', '%s raises %s on a valid argument' % (fam['impl'], got[1]),
-                                      dict(input=inp, implementation=list(got[1:])), True, site=f['site'], cls=f['cls'])
-                    else:
-                        found, what, extra, _ = search_failing_input(ctx, fam, p, got_cnf, documented(reps))
-                        rp = dict(input=inp, agrees_with='model variant %s (coq/Fam_%s.v), not with the documented one' %
-                                  (agreed[0]['label'], fam['name']))
-                        rp.update(extra)
-                        ctx.violation('counterexample' if found else 'correspondence',
-                                      what or '%s differs from its documented clauses' % fam['impl'], rp, found,
-                                      site=f['site'], cls=f['cls'])
-                    continue
-                # ---- disagreement with every model variant ----
-                mv = model_view(reps[0], fcname)
-                detail = agrees(got, mv, fcname)[1]
-                if got[0] == 'exc' and not p.get('malformed'):
-                    ctx.violation('counterexample', '%s raised %s: %s' % (fam['impl'], got[1], got[2]),
-                                  dict(input=inp, implementation=list(got[1:]), model=str(mv)[:300]), True,
-                                  site=fam['impl'], cls='raises-' + got[1])
-                    continue
-                found, what, extra, cls = search_failing_input(ctx, fam, p, got_cnf, documented(reps))
-                rp = dict(input=inp, difference=detail,
-                          implementation=str(got)[:600], model=str(mv)[:600],
-                          correspondence='coq/Fam_*.v (%s) <-> cnfgen %s; theorems of coq/Prop_C03.v no longer cover the code' % (fam['name'], fam['impl']))
-                rp.update(extra)
-                if found:
-                    ctx.violation('counterexample', what, rp, True, site=fam['impl'], cls=cls)
-                else:
-                    ctx.violation('correspondence', 'formula differs from the model (%s)' % detail, rp, False,
-                                  site=fam['impl'], cls='differs-' + detail)
+            compare(ctx, fam, p, al, reps, classes, order_notes)
+        if fam['name'] == 'ptn':
+            ptn_dense(ctx, fam, classes, order_notes)
     for name, n in sorted(order_notes.items()):
         ctx.note('%s: %d instance(s) equal to the model as clause sets but in a different clause/literal order' % (name, n))
     ctx.exhaustive = False
